@@ -185,6 +185,7 @@ func simulate(pre map[int]uint64, l []chainh.Tr) (final map[int]*big.Int, failAt
 type stats struct {
 	applied, appliedMoved, rejected, nonceRej, fundsRej, chargeable, chargeableDirty, internal int
 	laterTransferFailed, multiTransfer, capBypassed, signedApplied                            int
+	reads, ghostWrites                                                                        int
 }
 
 func check(h hist, steps []step) ([]viol, stats) {
@@ -198,7 +199,44 @@ func check(h hist, steps []step) ([]viol, stats) {
 		}
 	}
 	appliedNonces := map[int][]int64{}
+	// node values written by calls that did not commit (chargeable failure, internal failure,
+	// rejected transaction): key -> values
+	ghost := map[int]map[int64]bool{}
 	for i, s := range steps {
+		// ---- C02: what later calls read must be the committed trie value, never the write of a
+		// call that failed
+		for _, rd := range s.res.Rec.Reads {
+			stt.reads++
+			same := (rd.Seen == nil) == (rd.Trie == nil) && (rd.Seen == nil || *rd.Seen == *rd.Trie)
+			if same {
+				continue
+			}
+			seen, trie := "absent", "absent"
+			if rd.Seen != nil {
+				seen = fmt.Sprint(*rd.Seen)
+			}
+			if rd.Trie != nil {
+				trie = fmt.Sprint(*rd.Trie)
+			}
+			if rd.Seen != nil && ghost[rd.Key][*rd.Seen] {
+				add("C02:later-read-sees-discarded-write", "txn %d read node %d through the state context and saw %s, a value written by an earlier call that failed; the trie holds %s", i, rd.Key, seen, trie)
+			} else {
+				add("C02:context-read-differs-from-trie", "txn %d read node %d through the state context and saw %s; the trie holds %s", i, rd.Key, seen, trie)
+			}
+		}
+		if !(s.res.Applied && s.res.Status == 1) {
+			for k, w := range s.res.Rec.Writes {
+				if !s.res.Rec.Del[k] {
+					if ghost[int(w[0])] == nil {
+						ghost[int(w[0])] = map[int64]bool{}
+					}
+					ghost[int(w[0])][w[1]] = true
+					if int(w[0]) >= chainh.CacheableFrom {
+						stt.ghostWrites++
+					}
+				}
+			}
+		}
 		t := h.Txns[i]
 		pre, post := acctMap(s.pre), acctMap(s.post)
 		preBal := balMap(s.pre)
@@ -524,6 +562,28 @@ func coqType(t int) string {
 	}
 	return "TOther"
 }
+func coqWrites(rec chainh.Recorded) string {
+	ws := make([]string, len(rec.Writes))
+	for i, w := range rec.Writes {
+		if rec.Del[i] {
+			ws[i] = vh.Pair(vh.Z(w[0]), "None")
+		} else {
+			ws[i] = vh.Pair(vh.Z(w[0]), vh.Some(vh.Z(w[1])))
+		}
+	}
+	return vh.List(ws)
+}
+func coqReads(rec chainh.Recorded) string {
+	rs := make([]string, len(rec.Reads))
+	for i, r := range rec.Reads {
+		seen := "None"
+		if r.Seen != nil {
+			seen = vh.Some(vh.Z(*r.Seen))
+		}
+		rs[i] = fmt.Sprintf("(%s, %s, %s)", vh.Nat(r.Pos), vh.Z(int64(r.Key)), seen)
+	}
+	return vh.List(rs)
+}
 func coqResult(t chainh.Txn, rec chainh.Recorded) string {
 	if t.Type != 1000 {
 		return "SCInternal"
@@ -533,19 +593,11 @@ func coqResult(t chainh.Txn, rec chainh.Recorded) string {
 	}
 	switch rec.Class {
 	case "ok":
-		ws := make([]string, len(rec.Writes))
-		for i, w := range rec.Writes {
-			if rec.Del[i] {
-				ws[i] = vh.Pair(vh.Z(w[0]), "None")
-			} else {
-				ws[i] = vh.Pair(vh.Z(w[0]), vh.Some(vh.Z(w[1])))
-			}
-		}
 		evs := make([]string, len(rec.Events))
 		for i, e := range rec.Events {
 			evs[i] = vh.Z(int64(e))
 		}
-		return fmt.Sprintf("(SCOk %s %s %s %s %s)", vh.List(ws), coqTrs(rec.Trs), coqTrs(rec.Signed), vh.List(evs), vh.Z(int64(rec.Out)))
+		return fmt.Sprintf("(SCOk %s %s %s %s %s)", coqWrites(rec), coqTrs(rec.Trs), coqTrs(rec.Signed), vh.List(evs), vh.Z(int64(rec.Out)))
 	case "chargeable":
 		return fmt.Sprintf("(SCChargeable %s)", vh.Z(int64(rec.Out)))
 	}
@@ -602,7 +654,7 @@ func coqCase(h hist, steps []step) string {
 		t := h.Txns[i]
 		items[i] = fmt.Sprintf("(%s, cs_X %d %s %s %s %s %s %s, %s)", vh.Z(t.Round), i, coqType(t.Type), vh.Z(int64(t.From)),
 			vh.Z(int64(t.To)), vh.ZU(t.Value), vh.ZU(t.Fee), vh.Z(t.Nonce), coqResult(t, s.res.Rec))
-		obs[i] = fmt.Sprintf("(%s, %s, %s)", coqObs(t, s.res), coqChanged(s.pre, s.post), coqNodes(s.post))
+		obs[i] = fmt.Sprintf("cs_SO (%s) %s %s %s %s", coqObs(t, s.res), coqChanged(s.pre, s.post), coqNodes(s.post), coqWrites(s.res.Rec), coqReads(s.res.Rec))
 	}
 	return fmt.Sprintf("CaseHist {| csc_cfg := {| cfg_fee := %s; cfg_events := %s; cfg_miner := 0; cfg_strict_ids := %s |}; csc_init := %s;\n     csc_items := %s;\n     csc_obs := %s |}",
 		vh.Bool(h.Fee), vh.Bool(h.Events), vh.Bool(chainh.StrictIDs()), coqState(init), vh.List(items), vh.List(obs))
@@ -833,6 +885,14 @@ func min64(a, b uint64) uint64 {
 	return b
 }
 
+// nodeKey: plain nodes 0-3, cacheable nodes 8-10 (few keys so that calls meet on them)
+func nodeKey(r *vh.Rand) int {
+	if r.Bool() {
+		return chainh.CacheableFrom + r.Range(0, 2)
+	}
+	return r.Range(0, 3)
+}
+
 func genScript(r *vh.Rand, p profile, t chainh.Txn, snap map[int]chainh.Acct, clients []int, fresh int) chainh.Script {
 	s := chainh.Script{Mode: "ok", Out: r.Range(1, 50)}
 	if r.Chance(p.failMode, 100) {
@@ -853,8 +913,14 @@ func genScript(r *vh.Rand, p profile, t chainh.Txn, snap map[int]chainh.Acct, cl
 		}
 		return clients[r.Intn(len(clients))]
 	}
+	// most calls first look at a few nodes (as contracts load their global node, partitions ...)
+	for k, n := 0, r.Range(0, 3); k < n; k++ {
+		s.Ops = append(s.Ops, chainh.ScOp{K: "r", Key: nodeKey(r)})
+	}
 	for k := 0; k < nops; k++ {
 		switch x := r.Intn(100); {
+		case x < 8:
+			s.Ops = append(s.Ops, chainh.ScOp{K: "r", Key: nodeKey(r)})
 		case x < 55:
 			o := chainh.ScOp{K: "t"}
 			switch y := r.Intn(100); {
@@ -894,9 +960,9 @@ func genScript(r *vh.Rand, p profile, t chainh.Txn, snap map[int]chainh.Acct, cl
 			}
 			s.Ops = append(s.Ops, o)
 		case x < 75:
-			s.Ops = append(s.Ops, chainh.ScOp{K: "w", Key: r.Range(0, 5), Val: int64(r.Range(1, 99))})
+			s.Ops = append(s.Ops, chainh.ScOp{K: "w", Key: nodeKey(r), Val: int64(r.Range(1, 99))})
 		case x < 82:
-			s.Ops = append(s.Ops, chainh.ScOp{K: "d", Key: r.Range(0, 5)})
+			s.Ops = append(s.Ops, chainh.ScOp{K: "d", Key: nodeKey(r)})
 		case x < 94:
 			s.Ops = append(s.Ops, chainh.ScOp{K: "e", Key: r.Range(1, 9)})
 		default:
@@ -1134,13 +1200,13 @@ func main() {
 	rep := vh.NewReport("chainstate", prop, o)
 	rules := map[string]string{
 		"C01": "at least one applied transaction moved tokens between accounts and at least one transaction was rejected",
-		"C02": "at least one contract call failed chargeably after it had written nodes, queued transfers or emitted events, and was applied",
+		"C02": "at least one contract call failed chargeably after it had written nodes (plain and cacheable), queued transfers or emitted events, and was applied, and at least one call read nodes through the state context",
 		"C03": "at least one transaction was applied and at least one was rejected for its nonce",
 		"C04": "at least one applied transaction carried two or more transfers",
 		"C05": "at least one applied transaction moved tokens and at least one transaction was rejected for funds (overdraft / overflow)",
 	}
 	rep.Rule = "adaptive random histories of 1-" + fmt.Sprint(profileFor(prop, o).maxTxns) + " transactions (send / data / script-contract calls with 0-6 scripted writes, deletes, " +
-		"transfers incl. over-spend, foreign source, self transfer, malformed destination, boundary amounts, signed transfers, events; success, chargeable failure, internal failure; " +
+		"node reads through StateContext.GetTrieNode, transfers incl. over-spend, foreign source, self transfer, malformed destination, boundary amounts, signed transfers, events; success, chargeable failure, internal failure; " +
 		"unregistered contract; duplicate, skipped, past, future and wrapped nonces; values/fees around the balance, 2^53, MaxTokenSupply, 2^64-1; fees on/off; user events on/off) over 2-6 clients " +
 		"plus exhaustive boundary scopes (single transfer: source x destination x amount; nonce triples); non-trivial = " + rules[prop] + "; distinct by full history"
 	cf := &vh.CasesFile{Imports: []string{"Base.Corr", "Model.ChainState", "Corr.ChainState"}, CaseType: "cs_any_case", CheckFn: "cs_any_check", Shard: 100}
@@ -1210,6 +1276,8 @@ func main() {
 			}
 		}
 		rep.CountN("later-transfer-of-txn-failed", st.laterTransferFailed)
+		rep.CountN("node-reads-through-context", st.reads)
+		rep.CountN("cacheable-writes-of-calls-that-did-not-commit", st.ghostWrites)
 		rep.CountN("failed-call-with-side-effects", st.chargeableDirty)
 		rep.CountN("sender-cap-not-enforced-by-chain(F-04)", st.capBypassed)
 		rep.CountN("signed-transfer-applied-unverified(F-04)", st.signedApplied)
@@ -1218,7 +1286,7 @@ func main() {
 		case "C01":
 			nontriv = st.appliedMoved > 0 && st.rejected > 0
 		case "C02":
-			nontriv = st.chargeableDirty > 0
+			nontriv = st.chargeableDirty > 0 && st.reads > 0
 		case "C03":
 			nontriv = st.applied > 0 && st.nonceRej > 0
 		case "C04":
